@@ -636,6 +636,36 @@ Definition bind {A B} (r : result A) (k : A -> result B) : result B :=
   match r with Ok a => k a | Raise e => Raise e end.
 Notation "x <- r ;; k" := (bind r (fun x => k)) (at level 61, r at next level, right associativity).
 
+(* ---- object paths given as text to the model classes ---- *)
+
+(* str.split(sep) for a one-character separator *)
+Fixpoint split_all (c : N) (s : ustring) : list ustring :=
+  match s with
+  | [] => [[]]
+  | x :: r =>
+      if x =? c then [] :: split_all c r
+      else match split_all c r with h :: t => (x :: h) :: t | [] => [[x]] end
+  end.
+
+(* str.endswith("_ref") *)
+Definition ends_with_ref (s : ustring) : bool := ustr_prefix (u "fer_") (List.rev s).
+
+(* _ObjectPathComponent.create_ObjectPathComponent on a str:
+     endswith("_ref") -> Reference;  find("[") != -1 -> split("[") : List(parse1[0], parse1[1][:-1]);  else Basic *)
+Definition create_component_str (s : ustring) : acomp :=
+  if ends_with_ref s then ARef s
+  else match split_all 91 s with
+       | name :: seg :: _ => AList name (IdxStr (removelast seg))
+       | _ => ABasic s
+       end.
+
+(* ObjectPath.make_object_path(lhs):  parts = lhs.split(":");  ObjectPath(parts[0], parts[1].split(".")) *)
+Definition make_object_path (lhs : ustring) : result apath :=
+  match split_all 58 lhs with
+  | ty :: p :: _ => Ok (APath ty (map create_component_str (split_all 46 p)))
+  | _ => Raise IndexError
+  end.
+
 (* ---- variants ---- *)
 Record cfg := Cfg {
   neg_eq : bool; neg_order : bool; neg_set : bool; neg_like : bool;
